@@ -89,6 +89,14 @@ CLAIMS = {
          "equal_default/allclose_default and MultiTensor.allclose (absent block = zero, either side) are judged the same way. Sampled; outcomes ~50% True.",
          "Trusted: vf/gen_pattern.py interpreter, torch.equal/allclose as the definition of (approximate) equality, Hypothesis.",
          "DESIGN.md section 5, C13"),
+ 'C03': ("Hypothesis-generated grammars (admitted by an independent contraction test) vs. independent implicit differentiation of a dense torch re-implementation of the grammar equations (differential oracle on gradients)",
+         "For recursive and non-recursive grammars with shared factors, factors that cannot influence the start, disconnected nodes, edges on external nodes and "
+         "typed patterned weights, x {Real,Log} x method x random output cotangent x two ways of making weights leaves, the gradients produced by backward() "
+         "through sum_product (tol 1e-12) are compared entry by entry with d<c,Z>/dw (Real) resp. d<c,log Z>/d log w over finite log-weights and start cells "
+         "with Z>0 (Log), computed by an independent transposed solve (I-J)^T g = c at an independently computed least fixed point plus autograd through one "
+         "application of the equations. Sampled; only specs with Jacobian inf-norm <= 0.9 at the fixed point are judged.",
+         "Trusted: vf/oracle_fgg.py TorchEval (Newton least fixed point verified by residual and exact Boolean support; gradients self-checked on a closed form), torch autograd/linalg, Hypothesis.",
+         "DESIGN.md section 5, C03"),
 }
 
 NOT_YET = {}   # id -> reason (filled while the framework is being built)
